@@ -1059,3 +1059,39 @@ func zzConnAwait() {
 	cancel()
 	vReach("end")
 }
+
+// ---------------------------------------------------------------- Notify while Close drains (one concrete history)
+//
+// Not a thread-modular step: one history, built directly. Close has been called and is waiting for the handler of an
+// incoming request; nothing else is in flight. What that handler sends — progress, a log record, the cancellation
+// notice for a nested call it has just given up (the call is retired before the notice is sent) — still goes out:
+// Close lets the handler run to completion, and a notice that is refused leaves the peer's handler running for ever
+// (C04). An idle closing connection, by contrast, sends nothing more.
+func zzConnNotifyWhileDraining() {
+	g := zzFresh()
+	s := &g.c.state
+	s.closer = g.closer
+	s.connClosing = true
+	s.reading = true
+	handlerRunning := vBool("aHandlerIsStillRunning")
+	if handlerRunning {
+		req := zzNewReq(42, "tools/call")
+		s.incoming = 1
+		s.incomingByID = map[ID]*incomingRequest{req.ID: req}
+	}
+	outgoing := vBool("anOutgoingCallIsInFlight")
+	if outgoing {
+		s.outgoingCalls = map[ID]*AsyncCall{g.other.id: g.other}
+	}
+	err := g.c.Notify(context.Background(), "notifications/cancelled", "params")
+	if handlerRunning || outgoing {
+		// handed to the writer exactly once; what Notify reports is then the writer's verdict
+		vAssert(len(g.w.msgs) == 1 && (err == nil) == (g.w.outcome == 0), "C04.notification-sent-while-close-waits-for-work-in-flight")
+		vReach("sent")
+	} else {
+		vAssert(err != nil && len(g.w.msgs) == 0, "C05.idle-closing-connection-sends-nothing")
+		vReach("refused")
+	}
+	vAssert(s.outgoingNotifications == 0, "C05.notification-token-returned")
+	vReach("end")
+}
